@@ -93,6 +93,7 @@ type Config struct {
 	Hostile         bool          `json:"hostile"`
 	StarveSome      bool          `json:"starve_some"`
 	RetryDelay      time.Duration `json:"retry_delay"`
+	TransferTimeout time.Duration `json:"transfer_timeout"` // consumer TransferTimeoutPeriod (0 = default); deliberately different from the retry delay
 
 	ConsumerUnbonding time.Duration `json:"consumer_unbonding"`
 	HandshakeDelayMax int           `json:"handshake_delay_max"`
